@@ -76,8 +76,13 @@ def canon_error(exc):
             return f'err syntax {int(m.group(2))} {k}'
     return 'err crash ' + type(exc).__name__
 
-def real_load(data, encoding=None):
+# every call into the real loader code made by THIS process, in order (C10: the result of a load must not depend on it)
+_history = []
+
+def real_load(data, encoding=None, record=True):
     """→ ('ok', POFile, stderr text) | ('err', exception, stderr text); warnings are made visible as stderr text"""
+    if record:
+        _history.append({'op': 'load', 'hex': data.hex(), 'enc': encoding})
     P = env()['polib']
     with open(_path, 'wb') as f:
         f.write(data)
@@ -102,8 +107,10 @@ def impl_load(data, encoding=None):
             return 'err crash-canon ' + type(exc).__name__
     return canon_error(v)
 
-def impl_check(data):
+def impl_check(data, record=True, want_file=False):
     """the loading phase of the real Checker.check: broken-encoding retry"""
+    if record:
+        _history.append({'op': 'check', 'hex': data.hex()})
     E = env()
     import argparse
     with open(_path, 'wb') as f:
@@ -130,6 +137,8 @@ def impl_check(data):
     broken = 1 if 'broken-encoding' in tags else 0
     if 'file' in got:
         try:
+            if want_file:
+                return f'broken={broken} ' + canon_file(got['file']), got['file']
             return f'broken={broken} ' + canon_file(got['file'])
         except Exception as exc:
             return 'err crash-canon ' + type(exc).__name__
@@ -230,7 +239,9 @@ class _FakeParser:
         self = self      # noqa: the frame must have a local called `self`
         return self.fn(s)
 
-def impl_unescape(encoding, s):
+def impl_unescape(encoding, s, record=True):
+    if record:
+        _history.append({'op': 'unescape', 'enc': encoding, 's': s})
     P = env()['polib4us']
     err = io.StringIO()
     try:
@@ -261,8 +272,10 @@ def impl_setflags(items):
     except Exception as exc:
         return 'err crash ' + type(exc).__name__
 
-def impl_preprocess(text):
+def impl_preprocess(text, record=True):
     """`Codecs.open` on a UTF-8 file holding `text`"""
+    if record:
+        _history.append({'op': 'preprocess', 'text': text})
     P = env()['polib4us']
     p = os.path.join(_tmp, 'pre.po')
     with open(p, 'wb') as f:
@@ -273,7 +286,9 @@ def impl_preprocess(text):
     except Exception as exc:
         return 'err crash ' + type(exc).__name__
 
-def impl_detect(data):
+def impl_detect(data, record=True):
+    if record:
+        _history.append({'op': 'detect', 'hex': data.hex()})
     P = env()['polib']
     with open(_path, 'wb') as f:
         f.write(data)
@@ -304,3 +319,79 @@ def diff_catalog(exp, got):
             if x != y:
                 return f'entry {i} field {k}: expected {x!r}, loaded {y!r}'
     return None
+
+# ----------------------------------------------------------------------------- history independence
+
+def tuple_json(t):
+    """`loaded_tuple` / `G.expected` in a JSON-stable shape"""
+    header, entries = t
+    out = []
+    for e in entries:
+        e = list(e)
+        e[4] = {str(k): v for k, v in e[4].items()}
+        e[5] = list(e[5])
+        e[10] = [list(o) for o in e[10]]
+        out.append(e)
+    return [header, out]
+
+class Fresh:
+    """client of `po_fresh.py server`: every request runs in a child forked from a parent that has loaded nothing"""
+    def __init__(self):
+        import subprocess
+        self.p = subprocess.Popen([common.PY, os.path.join(os.path.dirname(os.path.abspath(__file__)), 'po_fresh.py'), 'server'],
+                                  stdin=subprocess.PIPE, stdout=subprocess.PIPE, text=True, env=dict(os.environ))
+        self.requests = 0
+    def run(self, ops):
+        import json
+        self.requests += 1
+        self.p.stdin.write(json.dumps(ops) + '\n')
+        self.p.stdin.flush()
+        line = self.p.stdout.readline()
+        if not line:
+            raise common.Infra('po_fresh server died')
+        return json.loads(line)
+    def close(self):
+        try:
+            self.p.stdin.close()
+            self.p.wait(timeout=10)
+        except Exception:
+            self.p.kill()
+
+def new_process(ops):
+    """the same ops in a brand-new interpreter (the faithful form of a replay)"""
+    import json, subprocess
+    r = subprocess.run([common.PY, os.path.join(os.path.dirname(os.path.abspath(__file__)), 'po_fresh.py'), 'run'],
+                       input=json.dumps(ops), capture_output=True, text=True, timeout=600, env=dict(os.environ))
+    if r.returncode != 0:
+        raise common.Infra('po_fresh run failed: ' + r.stderr[-500:])
+    return json.loads(r.stdout)
+
+def shrink_history(fresh, prefix, last, bad, budget=400):
+    """delta-debug `prefix` (ops executed before `last` in this process): a short sub-sequence after which `last` still gives a
+    result for which `bad(result)` holds.  → list of ops (without `last`) or None if even the whole prefix does not reproduce it"""
+    def fails(ops):
+        return bad(fresh.run(ops + [last])[-1])
+    if not fails(prefix):
+        return None
+    cur, n, used = list(prefix), 2, 1
+    while len(cur) >= 2 and used < budget:
+        chunk = max(1, len(cur) // n)
+        subsets = [cur[i:i + chunk] for i in range(0, len(cur), chunk)]
+        reduced = False
+        for i, sub in enumerate(subsets):                      # a single chunk suffices?
+            used += 1
+            if fails(sub):
+                cur, n, reduced = sub, 2, True
+                break
+        if not reduced:
+            for i in range(len(subsets)):                      # or the complement of one
+                comp = [x for j, ss in enumerate(subsets) if j != i for x in ss]
+                used += 1
+                if comp and fails(comp):
+                    cur, n, reduced = comp, max(n - 1, 2), True
+                    break
+        if not reduced:
+            if n >= len(cur):
+                break
+            n = min(len(cur), n * 2)
+    return cur
